@@ -952,6 +952,18 @@ def purity(seed, n):
             a, b = rng.sample(range(len(vs)), 2)
             ne = NumEdge([vs[a].id, vs[b].id], np.eye(1))
             es.append(ne)
+        if rng.random() < 0.35:
+            # information matrices as callers produce them: the inverse of a covariance (mirror entries differ in the last bits), or only the
+            # upper triangle filled in -- the API checks the shape, nothing else; whatever a query does with them, it may not store anything back
+            for e in es:
+                n_ = np.asarray(e.information).shape[0]
+                if n_ < 2 or rng.random() < 0.4:
+                    continue
+                if rng.random() < 0.5:
+                    A_ = np.array([[rng.gauss(0, 1) for _ in range(n_)] for _ in range(n_)])
+                    e.information = np.linalg.inv(A_ @ A_.T + 0.3 * np.eye(n_))
+                else:
+                    e.information = np.triu(np.asarray(e.information, dtype=np.float64))
         for e in es:
             e.vertices = None
         g = Graph(es, vs)
